@@ -593,7 +593,10 @@ func runC20(t *zsim.Tape, cfg *hlib.Config) *hlib.Outcome {
 	}
 	// I4: a request that outlives the timeout ⇒ its worker is gone shortly after
 	for _, v := range h.invs {
-		if v.Script != "hang" {
+		// hung requests, and requests that end a moment AFTER the timeout: they have outlived it all
+		// the same, their worker is terminated and replaced
+		over := v.Script == "near-timeout" && h.scripts[v.Token] != nil && h.scripts[v.Token].Service > timeout
+		if v.Script != "hang" && !over {
 			continue
 		}
 		wp := k.Proc(v.Pid)
